@@ -43,7 +43,7 @@ def getattr_(I, obj, name):
             if name == "__class__":
                 return I.B.AbsClass(obj)
             raise Unsupported("abstract %s has no declared member %s" % (ty.name, name))
-        if isinstance(ty, TSeq):
+        if isinstance(ty, (TSeq, TMap)):
             return SeqMethod(obj, name)
         if isinstance(ty, TStr):
             return SeqMethod(obj, name)
